@@ -5,12 +5,12 @@ import (
 	"math/rand"
 )
 
-func cmd(c string) *CmdD          { return &CmdD{C: c} }
-func focus(w int) *CmdD           { return &CmdD{C: "focus", W: w} }
-func batch(l ...*CmdD) *CmdD      { return &CmdD{C: "batch", L: l} }
-func slice(l ...*CmdD) *CmdD      { return &CmdD{C: "slice", L: l} }
-func key(k string) Step           { return Step{T: "key", K: k} }
-func mouse(b, x, y int) Step      { return Step{T: "mouse", B: b, X: x, Y: y} }
+func cmd(c string) *CmdD               { return &CmdD{C: c} }
+func focus(w int) *CmdD                { return &CmdD{C: "focus", W: w} }
+func batch(l ...*CmdD) *CmdD           { return &CmdD{C: "batch", L: l} }
+func slice(l ...*CmdD) *CmdD           { return &CmdD{C: "slice", L: l} }
+func key(k string) Step                { return Step{T: "key", K: k} }
+func mouse(b, x, y int) Step           { return Step{T: "mouse", B: b, X: x, Y: y} }
 func anyRule(cls string, c *CmdD) Rule { return Rule{Cls: cls, Cmd: c} }
 
 // generic rules every scenario ends with: R forces a frame, digits switch the
@@ -242,8 +242,13 @@ func GenRandom(rng *rand.Rand, count int) []*Scn {
 			}
 			switch cls {
 			case "enter", "leave", "fin", "fout":
-				// notifications answer only with redraws (possibly batched)
-				ru.Cmd = []*CmdD{nil, cmd("redraw"), batch(cmd("redraw")), slice(batch(), cmd("redraw"))}[rng.Intn(4)]
+				// notifications answer with redraws (possibly batched); hover notifications also with a
+				// consume (as the built-in button does), which must not outlive the notification
+				opts := []*CmdD{nil, cmd("redraw"), batch(cmd("redraw")), slice(batch(), cmd("redraw"))}
+				if cls == "enter" || cls == "leave" {
+					opts = append(opts, cmd("consume"), slice(cmd("consume"), cmd("redraw")), cmd("consume"))
+				}
+				ru.Cmd = opts[rng.Intn(len(opts))]
 			default:
 				ru.Cmd = randCmd(rng, n, 0, true)
 				if rng.Intn(25) == 0 {
@@ -331,7 +336,7 @@ func Fixed() []*Scn {
 		Steps: []Step{mouse(35, 6, 3), mouse(0, 6, 3), mouse(35, 2, 2), mouse(35, 6, 3), key("1"), mouse(35, 6, 3), mouse(35, 12, 4)}})
 	// layout change under a resting pointer: hover follows the new frame
 	out = append(out, &Scn{Kind: "fixed-relayout", Cols: 16, Rows: 6, Parent: []int{0, 1, 1}, Caps: []bool{false, false, false},
-		Lays: [][]Geom{{{W: 16, H: 6}, {X: 0, Y: 0, W: 8, H: 6}, {X: 8, Y: 0, W: 8, H: 6}}, {{W: 16, H: 6}, {X: 8, Y: 0, W: 8, H: 6}, {X: 0, Y: 0, W: 8, H: 6}}, {{W: 4, H: 2}, {X: 0, Y: 0, W: 2, H: 2}, {X: 2, Y: 0, W: 2, H: 2}}},
+		Lays:  [][]Geom{{{W: 16, H: 6}, {X: 0, Y: 0, W: 8, H: 6}, {X: 8, Y: 0, W: 8, H: 6}}, {{W: 16, H: 6}, {X: 8, Y: 0, W: 8, H: 6}, {X: 0, Y: 0, W: 8, H: 6}}, {{W: 4, H: 2}, {X: 0, Y: 0, W: 2, H: 2}, {X: 2, Y: 0, W: 2, H: 2}}},
 		Rules: append([]Rule{{Cls: "enter", Cmd: cmd("redraw")}}, genericRules(3)...),
 		Steps: []Step{mouse(35, 3, 3), key("1"), key("R"), key("2"), key("0"), Step{T: "tfout"}, key("1")}})
 	// custom events are routed like keys
